@@ -1,13 +1,17 @@
 ---- MODULE DatagramScen ----
 (* Scenario generator for C39: the shapes of ICP v2/v3, HTCP and SNMP (BER) datagrams and where they are damaged:
    every length/count field forced to {0, 1, actual-1, actual+1, max}, every truncation point class, opcode/version
-   out of range, and pure garbage.  One datagram family per class. *)
+   out of range, and pure garbage.  One datagram family per class.  "wellformed_sweep": well-formed requests whose *content*
+   is extreme - SNMP GET/GETNEXT for object identifiers all over (and next to) the Squid MIB with boundary sub-identifiers
+   (table rows and columns 0, 1, last, last+1, 2^16, 2^31, 2^32-1), ICP queries/replies with every opcode and odd URLs, HTCP
+   with every opcode. *)
 EXTENDS Naturals, TLC, Json
 VARIABLES par, done
 vars == <<par, done>>
 Init == par \in [proto : {"icp2", "icp3", "htcp", "snmp"},
                  shape : {"valid_query", "valid_reply", "bad_opcode", "bad_version", "len_zero", "len_one", "len_minus", "len_plus", "len_max",
-                          "truncated_head", "truncated_body", "no_nul", "nested_len", "count_huge", "garbage", "empty", "oversize"}]
+                          "truncated_head", "truncated_body", "no_nul", "nested_len", "count_huge", "garbage", "empty", "oversize",
+                          "wellformed_sweep"}]
         /\ done = FALSE
 Next == ~done /\ done' = TRUE /\ UNCHANGED par
 Spec == Init /\ [][Next]_vars
